@@ -1011,7 +1011,7 @@ func keys(m map[string]bool) []string {
 }
 
 func TestPropRPCReadsFollowTheChain(t *testing.T) {
-	stats.Check(t, stats.Budget{Quick: 60, Thorough: 1500},
+	stats.Check(t, stats.Budget{Quick: 400, Thorough: 1500},
 		"chain tree (prefix 1-3 + fork F1 1-2 blocks reverted + fork F2 1-3 blocks) on a drawn state backend with an L1 head absent/behind/equal/ahead; the real method tables of API v0.8/v0.9/v0.10 are mounted on jsonrpc servers and queried with JSON text: every read method x block id kinds (number, hash, latest, l1_accepted, one-past-head, reverted hash, random hash), tx hashes (existing, reverted, random), indices in/out of range, (contract, slot), classes; identity-bearing fields compared with the generated chain and the abstract state, error codes 24/29/20/28/27 exactly when the chain lacks the item, finality from the L1 head, route consistency (by index vs by hash), versions agree on shared keys; non-trivial = query through l1_accepted, a reverted hash or a historical block",
 		func(rt *rapid.T, c *stats.Case) {
 			u := gen.NewUniverse(rt)
